@@ -289,6 +289,16 @@ def explore(ctx, h, drv, n, label):
     return probs
 
 
+def selftest_note(ctx):
+    import json, os
+    f = os.path.join(C.ROOT, "mutants", "C16", "RESULTS.json")
+    if os.path.exists(f):
+        r = json.load(open(f))
+        ok = [k for k, v in r.items() if v.get("caught")]
+        ctx.notes.append("last sensitivity self-test (mutants/C16/*.diff on the fixed tree, quick tier): %d of %d mutants caught with a failing input (%d of them also pass the repo's own json tests)" % (
+            len(ok), len(r), sum(1 for v in r.values() if v.get("caught") and v.get("repo_tests_pass"))))
+
+
 def build(ctx):
     impl = C.build_impl("asan")
     return C.build_harness(impl, "h_c16", ["h_c16.c"])
@@ -303,6 +313,7 @@ def run(ctx):
     ctx.assumptions += ["documents have unique member names (also ignoring ASCII case) and no NUL bytes in keys/strings (what the binary form can hold, C14)",
                         "doubles are not integer-valued (their text form would read back as an integer in the text entry points)",
                         "heap-mode leaks are not checked (ASan leak detection is off); double free / use after free are"]
+    selftest_note(ctx)
     ctx.translate()
     ok, drv_ok = ctx.prove(MODULE, THEOREMS)
     h = build(ctx)
